@@ -35,7 +35,7 @@ def spec_ovf(rep, N, D, x='x'):
     T, P = rep, G.REPS[rep]['P']
     W = G.W_of(rep)
     prod = '((%s)%s * %s)' % (W, x, G.wlit(rep, N))
-    if W == 'u64':
+    if W in ('u64', 'u128'):
         c = ['!(%s <= %s)' % (prod, G.wlit(rep, G.tmax(P)))]
     else:
         c = ['!(%s >= %s && %s <= %s)' % (prod, G.wlit(rep, G.tmin(P)), prod, G.wlit(rep, G.tmax(P)))]
@@ -49,7 +49,11 @@ def spec_trunc(rep, N, D, x='x'):
     """property-level predicate: value x N/D is not an integer, i.e. D does not divide x*N.  N/D is in lowest terms
     (gcd checked here), so by Euclid's lemma this is `D does not divide x` -- the form the solvers can decide."""
     assert gcd(N, D) == 1
-    return '((((%s)%s) %% %s) != 0)' % (G.W_of(rep), x, G.wlit(rep, D))
+    # D <= max(P) for every conversion that compiles, so the remainder can be taken in 64 bits
+    if G.REPS[rep]['signed'] or G.REPS[rep]['bits'] < 32:
+        assert D < (1 << 63)
+        return '((((i64)%s) %% ((i64)%dLL)) != 0)' % (x, D)
+    return '((((u64)%s) %% ((u64)%dULL)) != 0)' % (x, D)
 
 
 def wrappers(rep, N, D):
@@ -67,6 +71,24 @@ def wrappers(rep, N, D):
     return pre, ws, tag
 
 
+def make_twin(rep, N, D, body):
+    """a contract that differs from the real one on at least one input (witness computed here), so it must be refuted"""
+    T, P = rep, G.REPS[rep]['P']
+    if D > 1 and D <= G.tmax(T):
+        # truncation twin: claims x == D truncates
+        st = spec_trunc(rep, N, D)
+        return body.replace(st, '(%s || x == %d)' % (st, D))
+    x0 = (G.tmax(T) * D) // N
+    if N > 1 and 1 <= x0 <= G.tmax(T) and x0 * N <= G.tmax(P):
+        # overflow twin: threshold lowered by N, so x0 = floor(max(T)*D/N) is wrongly called overflowing
+        so = spec_ovf(rep, N, D)
+        lim = G.wlit(rep, G.tmax(T) * D)
+        assert so.count('> ' + lim) == 1
+        return body.replace(so, so.replace('> ' + lim, '> ' + G.wlit(rep, G.tmax(T) * D - N)))
+    st = spec_trunc(rep, N, D)
+    return body.replace(st, '(%s && x != 1)' % st)
+
+
 def obligations(tier, seed):
     obs = []
     for k, (rep, N, D) in enumerate(instances(tier, seed)):
@@ -78,10 +100,7 @@ def obligations(tier, seed):
   CHECK(t == %s, "truncate-iff-not-integer");
   CHECK(l == (o || t), "lossy-is-disjunction");
 ''' % (ws['ovf'].name, ws['trunc'].name, ws['lossy'].name, spec_ovf(rep, N, D), spec_trunc(rep, N, D))
-        twin = None
-        if k % 7 == 0:
-            twin = body.replace(spec_ovf(rep, N, D), spec_ovf(rep, N + 1, D)) if G.category(N, D) != 'div' else \
-                body.replace(spec_trunc(rep, N, D), spec_trunc(rep, N, D + 1))
+        twin = make_twin(rep, N, D, body) if k % 7 == 0 else None
         obs.append(Ob(id='C04.int.%s' % tag, prop='C04', group='C04.%s' % rep, prelude=pre,
                       wrappers=[ws['ovf'], ws['trunc'], ws['lossy']], inputs=[(ct, 'x')], body=body, twin=twin,
                       contract='forall x:%s. will_conversion_overflow == (x*%d outside range(P) or x*%d/%d outside range(T)); '
